@@ -269,7 +269,14 @@ fn replay(path: &str) -> ! {
     let w = &j["witness"];
     let mut bad = [false; 2];
     for round in 0..2 {
-        if w["engine"] == "run" {
+        if w["engine"] == "run-typed" {
+            let x = unhex(w["input"].as_str().unwrap());
+            let mut m = mc::ifaces::Typ;
+            let mut wr: heapless::Vec<u8, 8> = heapless::Vec::new();
+            let o = run_on(&mut m, &x, &mut wr, Pattern::NONE);
+            println!("round {round}: run(\"{}\") on the typed interface -> {:?}", show(&x), o);
+            bad[round] = judge_run(&o).is_some();
+        } else if w["engine"] == "run" {
             let x = unhex(w["input"].as_str().unwrap());
             let wk = Wk::from_json(&w["writer"]);
             let o = run_case(&x, wk);
@@ -438,7 +445,7 @@ fn main() {
     // (b') parameter lists of 0..=16 parameters of every data kind on several headers
     let mut many_execs = 0u64;
     {
-        let headers: &[&[u8]] = &[b"B", b"A:B", b"A:N", b"A:K", b"Z", b"*R", b"B?", b"A:Q?"];
+        let headers: &[&[u8]] = &[b"B", b"A:B", b"A:N", b"A:K", b"A:W", b"Z", b"*R", b"B?", b"A:Q?"];
         let lits: &[&[u8]] = &[b"1", b"'x'", b"#11x", b"ON", b"#HFF", b"1.5E3"];
         let mut msgs2: Vec<Vec<u8>> = vec![];
         for h in headers {
@@ -469,6 +476,46 @@ fn main() {
             many_execs += 1;
             if let Some((kind, detail)) = judge_proc(&o) {
                 add_proc_violation(&mut out.groups, 64, x, &sizes, kind, &detail);
+            }
+        }
+    }
+    // (b'') very long numeric fields (1..=40 digits in every numeric position) on every parameter type
+    let mut long_execs = 0u64;
+    {
+        use mc::ifaces::typ::TYPES;
+        use mc::ifaces::Typ;
+        let mut lits: Vec<String> = vec![];
+        for n in 1..=40usize {
+            for d in ["9".repeat(n), format!("1{}", "0".repeat(n - 1)), "4294967296".chars().cycle().take(n).collect::<String>()] {
+                for f in [
+                    format!("1E{d}"), format!("1E-{d}"), format!("1e+{d}"), format!("{d}"), format!("-{d}"), format!("{d}.{d}"), format!(".{d}E{d}"),
+                    format!("0.{}1", "0".repeat(n)), format!("{d}E-{d}"),
+                ] {
+                    lits.push(f);
+                }
+            }
+            lits.push(format!("#H{}", "F".repeat(n)));
+            lits.push(format!("#Q{}", "7".repeat(n)));
+            lits.push(format!("#B{}", "1".repeat(n)));
+            lits.push(format!("#H{}", "0".repeat(n)));
+            if n <= 9 {
+                lits.push(format!("#{n}{}", "9".repeat(n)));
+                lits.push(format!("#{n}{}", "0".repeat(n)));
+            }
+        }
+        for (_, mn) in TYPES {
+            for l in &lits {
+                let x = format!("{mn} {l}\n").into_bytes();
+                let mut m = Typ;
+                let mut w: heapless::Vec<u8, 8> = heapless::Vec::new();
+                let o = run_on(&mut m, &x, &mut w, Pattern::NONE);
+                long_execs += 1;
+                if let Some((kind, detail)) = judge_run(&o) {
+                    let feat = vec![("engine", "run-typed".to_string()), ("kind", kind.to_string()), ("detail", detail.clone())];
+                    out.groups.add("crash-freedom", &feat, (x.len(), &x), || {
+                        (json!({"engine": "run-typed", "input": hex(&x)}), format!("run(\"{}\") on the typed interface: {kind} {detail}", show(&x)))
+                    });
+                }
             }
         }
     }
@@ -532,7 +579,7 @@ fn main() {
     if cfg!(microscpi_verif) && hook_calls == 0 {
         out.machinery_errors.push("hook was never called".into());
     }
-    let total = lex_execs + lex2_execs + lex3_execs + cap_execs + many_execs + env_execs;
+    let total = lex_execs + lex2_execs + lex3_execs + cap_execs + many_execs + long_execs + env_execs;
     out.cov("states", lex_cases + lex3_cases + msgs.len() as u64 + env_streams);
     out.cov("transitions", total);
     out.cov("traces_validated_against_impl", total);
@@ -553,7 +600,8 @@ fn main() {
             "lex_run": {"max_tokens": lex_len, "writers": lex_writers.iter().map(|w| w.json()).collect::<Vec<_>>(), "strings": lex_cases, "executions": lex_execs},
             "lex_run_other_writers": {"max_tokens": lex2_len, "writers": writers2.iter().map(|w| w.json()).collect::<Vec<_>>(), "executions": lex2_execs},
             "lex_run_second_alphabet": {"alphabet": lex::sigma_alt_json(), "max_tokens": lex3_len, "writers": lw3.iter().map(|w| w.json()).collect::<Vec<_>>(), "strings": lex3_cases, "executions": lex3_execs},
-            "many_parameters": {"headers": 8, "literal_kinds": 6, "parameters": "0..=16", "executions": many_execs},
+            "long_numeric_fields": {"digits": "1..=40 in mantissa, fraction, exponent, radix literals, block length", "parameter_types": 15, "executions": long_execs},
+            "many_parameters": {"headers": 9, "literal_kinds": 6, "parameters": "0..=16", "executions": many_execs},
             "capacity_sweep": {"messages": msgs.len(), "capacities": "recorder 0..=64, heapless {0,1,2,8,9,16,41,64}", "executions": cap_execs},
             "process": {"N_for_pool_streams": ns_pool, "N_for_token_streams": ns_lex, "pool_messages": POOL.len(),
                         "pool_streams": pool_streams.len(), "token_streams": lex_streams.len(),
